@@ -54,6 +54,202 @@ Section Classes.
       f_equal. f_equal. f_equal. change (N.of_nat 8) with 8. lia.
   Qed.
 
+  (* ------------------------------------------------------------ script variables *)
+
+  Lemma c_ptr_enc safe st (k : ptgt -> prog A) F t pos tail :
+    incl (ids_tgt t) F -> r_num st = nlen F -> nlen F < 2147483648 ->
+    classes (r_ptr safe st k) pos (enc_ptr F safe t ++ tail) =
+    lay_ptr ++ classes (k (pend_tgt F t)) (pos + 8) tail.
+  Proof.
+    intros Hin Hn HF. unfold r_ptr, enc_ptr, lay_ptr.
+    rewrite classes_record; [|destruct safe; vm_compute; reflexivity|apply nlen_le_encode].
+    rewrite le_encode_length.
+    destruct t as [x|]; cbn [pend_tgt].
+    - assert (Hx : In x F) by (apply Hin; now left).
+      pose proof (idx_in_range F x Hx) as R.
+      rewrite le_decode_encode by (change (256 ^ N.of_nat 4) with 4294967296; lia).
+      destruct (N.eqb_spec (idx F x) NULLP) as [E|_]; [unfold NULLP in E; lia|].
+      destruct (N.eqb_spec (idx F x) 0) as [E|_]; [lia|].
+      destruct (N.ltb_spec (r_num st) (idx F x)) as [L|_]; [lia|].
+      cbn [orb]. f_equal. f_equal. change (N.of_nat 4) with 4. lia.
+    - rewrite le_decode_encode by (vm_compute; reflexivity).
+      rewrite N.eqb_refl. f_equal. f_equal. change (N.of_nat 4) with 4. lia.
+  Qed.
+
+  Lemma c_ptrs_enc F st ts : forall (k : list ptgt -> prog A) pos tail,
+    incl (flat_map ids_tgt ts) F -> r_num st = nlen F -> nlen F < 2147483648 ->
+    classes (r_ptrs (map (fun _ => None) ts) (nlen ts) st k) pos (enc_ptrs F ts ++ tail) =
+    flat_map (fun _ => lay_ptr) ts ++ classes (k (map (pend_tgt F) ts)) (pos + Z.of_N (8 * nlen ts)) tail.
+  Proof.
+    induction ts as [|t r IH]; intros k pos tail Hin Hn HF; cbn [map r_ptrs enc_ptrs flat_map].
+    - change (nlen (@nil (option N)) =? 0) with true. cbv iota. cbn [app]. f_equal. f_equal.
+      change (nlen (@nil (option N))) with 0. lia.
+    - rewrite nlen_cons. destruct (N.eqb_spec (1 + nlen r) 0) as [E|_]; [lia|].
+      rewrite <- !app_assoc. rewrite c_ptr_enc; [|intros x Hx; apply Hin; apply in_or_app; now left|assumption|assumption].
+      replace (1 + nlen r - 1) with (nlen r) by lia.
+      rewrite IH; [|intros x Hx; apply Hin; apply in_or_app; now right|assumption|assumption].
+      f_equal. f_equal. f_equal. lia.
+  Qed.
+
+  Lemma c_num32_enc (k : N -> prog A) v pos tail :
+    v < 4294967296 ->
+    classes (r_num32 k) pos (u32 v ++ tail) = lay_rec POther 4 ++ classes (k v) (pos + 8) tail.
+  Proof.
+    intro Hv. unfold r_num32, u32.
+    rewrite classes_record; [|vm_compute; reflexivity|apply nlen_le_encode].
+    rewrite le_encode_length.
+    rewrite le_decode_encode by (change (256 ^ N.of_nat 4) with 4294967296; exact Hv).
+    f_equal. f_equal. change (N.of_nat 4) with 4. lia.
+  Qed.
+
+  Lemma c_position_enc F st id (k : rst -> prog A) pos tail :
+    In id F -> r_num st = nlen F -> nlen F < 2147483648 ->
+    classes (r_position st id k) pos (rec_bytes T_Position (le_encode 4 (idx F id)) ++ tail) =
+    lay_rec POther 4 ++ classes (k (reg_ids F [id] st)) (pos + 8) tail.
+  Proof.
+    intros Hin Hn HF. unfold r_position. pose proof (idx_in_range F id Hin) as R.
+    rewrite classes_record; [|vm_compute; reflexivity|apply nlen_le_encode].
+    rewrite le_encode_length.
+    rewrite le_decode_encode by (change (256 ^ N.of_nat 4) with 4294967296; lia).
+    rewrite add_at_reg by assumption.
+    f_equal. f_equal. change (N.of_nat 4) with 4. lia.
+  Qed.
+
+  Lemma c_cstr_enc (k : option (list N) -> prog A) s pos tail :
+    (forall bs, s = Some bs -> nlen bs < 256 ^ 8) ->
+    classes (r_cstr k) pos (w_cstr s ++ tail) =
+    lay_cstr s ++ classes (k s) (pos + Z.of_N (size_cstr s)) tail.
+  Proof.
+    intro Hs. unfold r_cstr, lay_cstr. destruct s as [bs|]; cbn [w_cstr size_cstr].
+    - rewrite <- !app_assoc. rewrite classes_record; [|vm_compute; reflexivity|reflexivity].
+      rewrite le_decode_single. change (1 =? 0) with false. cbv iota.
+      rewrite c_str_enc by (now apply Hs). rewrite nlen_w_str. cbn [length]. f_equal. f_equal. f_equal. lia.
+    - rewrite classes_record; [|vm_compute; reflexivity|reflexivity].
+      rewrite le_decode_single. change (0 =? 0) with true. cbv iota. cbn [length]. rewrite app_nil_r.
+      f_equal; f_equal; lia.
+  Qed.
+
+  Lemma c_newref_enc (k : bool -> prog A) (b : bool) pos tail :
+    classes (r_newref k) pos (rec_bytes T_Boolean [if b then 1 else 0] ++ tail) =
+    lay_rec POther 1 ++ classes (k b) (pos + 5) tail.
+  Proof.
+    unfold r_newref. rewrite classes_record; [|vm_compute; reflexivity|reflexivity].
+    destruct b; cbv iota; cbn [length]; f_equal; f_equal; lia.
+  Qed.
+
+  Lemma c_raw12_enc (k : list N -> prog A) bs pos tail :
+    nlen bs = 12 ->
+    classes (r_raw12 k) pos (rec_bytes T_Raw bs ++ tail) =
+    lay_rec POther (length bs) ++ classes (k bs) (pos + 16) tail.
+  Proof.
+    intro Hb. unfold r_raw12. rewrite classes_record; [|vm_compute; reflexivity|exact Hb].
+    f_equal. f_equal. lia.
+  Qed.
+
+  Lemma c_tok1_enc F st t (k : rst -> tok ptgt -> prog A) pos tail :
+    tok_ok F t -> r_num st = nlen F -> nlen F < 2147483648 ->
+    classes (r_tok1 (shape_tok t) st k) pos (enc_tok F t ++ tail) =
+    lay_tok t ++ classes (k (reg_ids F (reg_tok t) st) (pend_tok F t))
+        (pos + Z.of_N (13 + size_body (t_body t))) tail.
+  Proof.
+    intros (Hwf & Hin & Hsz) Hn HF.
+    assert (Hvid : In (t_vid t) F) by (apply Hin; now left).
+    assert (Hids : incl (ids_body (t_body t)) F) by (intros x Hx; apply Hin; now right).
+    unfold r_tok1, enc_tok, pend_tok, reg_tok, shape_tok, lay_tok. cbn [t_vid t_body].
+    rewrite <- !app_assoc.
+    rewrite c_position_enc by assumption.
+    rewrite classes_record; [|vm_compute; reflexivity|reflexivity].
+    rewrite le_decode_single. cbn [length].
+    set (st1 := reg_ids F [t_vid t] st).
+    assert (Hn1 : r_num st1 = nlen F) by (unfold st1; now rewrite reg_ids_num).
+    destruct (t_body t) as [|bs|pk v|s|pk x|hid rc tl thr tli count|hid rc size|pid ts|hk [hid|]|bs] eqn:Eb;
+      cbn [vtype enc_tbody pend_body size_body ids_body wf_body lab_hid lab_targets lay_tbody] in *.
+    - eqb_lits. cbn [app]. do 2 f_equal. f_equal. lia.
+    - eqb_lits.
+      rewrite c_str_enc.
+      + rewrite nlen_w_str. do 3 f_equal. f_equal. lia.
+      + unfold size_str in Hsz. destruct bs; [vm_compute; reflexivity|]. change (256 ^ 8) with 18446744073709551616. lia.
+    - apply N.ltb_lt in Hwf.
+      destruct pk; cbn [vtype vp_tag vp_width] in *; eqb_lits;
+        (rewrite classes_record; [|vm_compute; reflexivity|apply nlen_le_encode]);
+        rewrite le_encode_length;
+        rewrite le_decode_encode by exact Hwf; do 3 f_equal; f_equal; lia.
+    - eqb_lits.
+      rewrite c_cstr_enc.
+      + do 3 f_equal. f_equal. lia.
+      + intros bs0 ->. cbn [size_cstr] in Hsz. unfold size_str in Hsz.
+        destruct bs0; [vm_compute; reflexivity|]. change (256 ^ 8) with 18446744073709551616. lia.
+    - destruct pk; cbn [vtype vptr_safe] in *; eqb_lits;
+        (rewrite c_ptr_enc by assumption); do 3 f_equal; f_equal; lia.
+    - repeat match goal with Hx : (_ && _) = true |- _ => apply andb_true_iff in Hx; destruct Hx end.
+      repeat match goal with Hx : (_ <? _) = true |- _ => apply N.ltb_lt in Hx end.
+      eqb_lits. unfold enc_new, lay_new. rewrite <- !app_assoc.
+      rewrite (c_newref_enc _ true).
+      rewrite c_position_enc; [|apply Hids; now left|assumption|assumption].
+      rewrite !c_num32_enc by assumption.
+      rewrite classes_record; [|vm_compute; reflexivity|apply nlen_le_encode].
+      rewrite le_encode_length.
+      rewrite le_decode_encode by (change (256 ^ N.of_nat 2) with 65536; assumption).
+      assert (Hz : (tl =? 0) && (0 <? count) = false).
+      { destruct (N.eqb_spec tl 0) as [->|_]; [|reflexivity]. cbn [andb].
+        match goal with Hx : (0 <? 0) || (count =? 0) = true |- _ => cbn [orb] in Hx; change (0 <? 0) with false in Hx; cbn [orb] in Hx; apply N.eqb_eq in Hx; subst count end.
+        reflexivity. }
+      rewrite Hz. unfold st1. do 9 f_equal. f_equal. change (N.of_nat 2) with 2. lia.
+    - repeat match goal with Hx : (_ && _) = true |- _ => apply andb_true_iff in Hx; destruct Hx end.
+      repeat match goal with Hx : (_ <? _) = true |- _ => apply N.ltb_lt in Hx end.
+      eqb_lits. unfold enc_new, lay_new. rewrite <- !app_assoc.
+      rewrite (c_newref_enc _ true).
+      rewrite c_position_enc; [|apply Hids; now left|assumption|assumption].
+      rewrite !c_num32_enc by assumption.
+      unfold st1. do 6 f_equal. f_equal. lia.
+    - eqb_lits. unfold enc_new, lay_new. rewrite <- !app_assoc.
+      rewrite (c_newref_enc _ true).
+      rewrite c_position_enc; [|apply Hids; now left|assumption|assumption].
+      rewrite c_num32_enc by lia.
+      rewrite c_ptrs_enc; [|intros x Hx; apply Hids; now right|now rewrite reg_ids_num|assumption].
+      unfold st1. do 6 f_equal. f_equal. lia.
+    - destruct hk; cbn [vtype] in *; eqb_lits; rewrite <- !app_assoc;
+        rewrite (c_newref_enc _ false); (rewrite c_ptr_enc by assumption);
+        cbn [app]; do 4 f_equal; f_equal; lia.
+    - discriminate.
+    - apply andb_true_iff in Hwf as [_ Hl]. apply N.eqb_eq in Hl.
+      eqb_lits. rewrite <- !app_assoc.
+      rewrite !c_raw12_enc by exact Hl.
+      cbn [app]. do 5 f_equal. f_equal. rewrite Hl. lia.
+  Qed.
+
+  Lemma c_toks_enc F toks : forall labs2 pending pend' st (cont : rst -> list (tok ptgt) -> prog A) pos tail,
+    pend_after toks pending = Some pend' ->
+    Forall (tok_ok F) toks -> size_toks toks < 2147483648 -> r_num st = nlen F -> nlen F < 2147483648 ->
+    classes (r_toks (map shape_tok toks ++ labs2) pending st cont) pos (enc_toks F toks ++ tail) =
+    flat_map lay_tok toks ++
+    classes (r_toks labs2 pend' (reg_ids F (flat_map reg_tok toks) st)
+                    (fun st2 more => cont st2 (map (pend_tok F) toks ++ more)))
+        (pos + Z.of_N (nlen (enc_toks F toks))) tail.
+  Proof.
+    induction toks as [|t r IH]; intros labs2 pending pend' st cont pos tail Hp Hok Hsz Hn HF;
+      cbn [map app enc_toks flat_map pend_after size_toks] in *.
+    - inversion Hp; subst. cbn [reg_ids fold_left]. f_equal. f_equal. change (nlen (@nil N)) with 0. lia.
+    - inversion Hok as [|? ? Ht Hr]; subst.
+      destruct (N.eqb_spec pending 0) as [E|E]; [discriminate|].
+      cbn [r_toks]. destruct (N.eqb_spec pending 0) as [E'|_]; [contradiction|].
+      rewrite <- !app_assoc.
+      rewrite c_tok1_enc by assumption.
+      cbn [pend_tok t_body]. rewrite kids_pend.
+      rewrite (IH labs2 _ pend'); [|exact Hp|assumption|lia|now rewrite reg_ids_num|assumption].
+      rewrite reg_ids_app. f_equal. f_equal. f_equal. rewrite nlen_app, nlen_enc_tok. lia.
+  Qed.
+
+  Lemma c_key_enc key (k : option (option (list N)) -> prog A) pos tail :
+    (forall bs, key = Some (Some bs) -> nlen bs < 256 ^ 8) ->
+    classes (r_key (match key with None => None | Some _ => Some None end) k) pos (w_key key ++ tail) =
+    lay_key key ++ classes (k key) (pos + Z.of_N (size_key key)) tail.
+  Proof.
+    intro Hk. destruct key as [s|]; cbn [r_key w_key size_key lay_key].
+    - rewrite c_cstr_enc; [reflexivity|]. intros bs ->. now apply Hk.
+    - cbn [app]. f_equal. f_equal. lia.
+  Qed.
+
   Lemma c_leaf_enc F st l (cont : rst -> pleaf -> prog A) pos tail :
     leaf_ok F l -> r_num st = nlen F -> nlen F < 2147483648 ->
     classes (r_leaf st (shape_leaf l) cont) pos (enc_leaf F l ++ tail) =
@@ -61,7 +257,21 @@ Section Classes.
         (pos + Z.of_N (nlen (enc_leaf F l))) tail.
   Proof.
     intros (Hwf & Hin & Hsz) Hn HF. rewrite nlen_enc_leaf.
-    destruct l as [k v|bs|bs|s [t|]|id]; cbn [r_leaf shape_leaf enc_leaf reg_leaf pend_leaf size_leaf reg_ids fold_left lay_leaf].
+    destruct l as [k v|bs|bs|s [t|]|id|key toks]; cbn [r_leaf shape_leaf enc_leaf reg_leaf pend_leaf size_leaf reg_ids fold_left lay_leaf].
+    7:{ cbn [wf_leaf ids_leaf size_leaf] in *.
+        apply andb_true_iff in Hwf as [Hwf Hbal]. apply andb_true_iff in Hwf as [Hkey Hbodies].
+        rewrite <- !app_assoc. rewrite c_key_enc.
+        2:{ intros bs ->. unfold size_key, size_cstr, size_str in Hsz. destruct bs; [vm_compute; reflexivity|].
+            change (256 ^ 8) with 18446744073709551616. lia. }
+        unfold balanced in Hbal. destruct (pend_after toks 1) as [[|p]|] eqn:Hp; try discriminate.
+        pose proof (c_toks_enc F toks [] 1 0 st (fun st' ts => cont st' (PVar key ts))) as R.
+        rewrite app_nil_r in R. rewrite R; [|exact Hp| |lia|assumption|assumption].
+        - cbn [r_toks]. change (0 =? 0) with true. cbv iota. rewrite app_nil_r.
+          f_equal. f_equal. f_equal. rewrite nlen_enc_toks. lia.
+        - rewrite forallb_forall in Hbodies. apply Forall_forall. intros t Ht. split; [now apply Hbodies|split].
+          + intros x Hx. apply Hin. rewrite in_flat_map. eauto.
+          + clear - Ht Hsz. induction toks as [|a r IH]; [destruct Ht|]. cbn [size_toks] in Hsz.
+            destruct Ht as [->|Ht]; [lia|]. apply IH; try assumption; lia. }
     - rewrite classes_record; [|apply ptag_small|apply nlen_le_encode].
       rewrite le_encode_length. rewrite le_decode_encode.
       + f_equal. f_equal. lia.
@@ -212,7 +422,7 @@ Proof.
   unfold wf_case, wf_hdr, wf_items. intro H.
   repeat match goal with Hx : (_ && _) = true |- _ => apply andb_true_iff in Hx; destruct Hx end.
   repeat match goal with Hx : (_ <? _) = true |- _ => apply N.ltb_lt in Hx end.
-  destruct (write_as_enc h its) as (F & Hw & Hin & Hlen).
+  destruct (write_as_enc h its) as (F & Hw & Hin & Hlen); [assumption|].
   pose proof (count_le_size_items its) as Hc.
   assert (HF : nlen F < 2147483648) by lia.
   unfold rlayout. rewrite Hw.
